@@ -193,8 +193,11 @@ func (s *spyStore) checkHistorical(si *qbftstorage.StoredInstance, call string) 
 		_, or, on := certOf(old)
 		if nn < on {
 			sig := "historical-replaced-by-fewer-signers"
-			if w.restarts > 0 && w.startedInc[nh] && !w.histInc[nh] {
-				// the record was written before the last restart and the height was run again after it
+			// Recorded finding, kept narrow: the height was learned through a LATE decided message (below the
+			// controller height of an earlier incarnation, so it never became the stored highest), it lies above the
+			// stored highest found at the last restart, the restarted runner started it again, and this is the
+			// first write of this incarnation to the record. Anything else keeps the generic signature.
+			if li, ok := w.late[nh]; ok && li.inc < w.restarts && w.loadMax < nh && nh < li.at && w.startedInc[nh] && !w.histInc[nh] {
 				sig = "history-overwritten-by-rerun-after-restart"
 			}
 			w.res.Violate(sig, fmt.Sprintf("%s: historical instance of height %d (certificate of round %d, %d signers) replaced by a certificate of round %d with %d signers", call, nh, or, on, nr, nn), w.beh, w.step)
@@ -245,11 +248,12 @@ type world struct {
 	step     int
 	// monitor bookkeeping, from real outputs only
 	restarts   int
-	incMax     int          // highest height started / learned as decided by this incarnation (-1 none)
-	loadMax    int          // stored highest height found at the last restart (-1 none)
-	everDec    int          // highest height ever learned as decided (observation only)
-	startedInc map[int]bool // heights successfully started by this incarnation
-	histInc    map[int]bool // historical records written by this incarnation
+	incMax     int              // highest height started / learned as decided by this incarnation (-1 none)
+	loadMax    int              // stored highest height found at the last restart (-1 none)
+	everDec    int              // highest height ever learned as decided (observation only)
+	startedInc map[int]bool     // heights successfully started by this incarnation
+	late       map[int]lateInfo // heights learned through a decided message that arrived below the controller height
+	histInc    map[int]bool     // historical records written by this incarnation
 }
 
 // one in-memory badger database for the whole run (opening one per behaviour costs far more than the protocol
@@ -258,6 +262,8 @@ var (
 	sharedDB basedb.Database
 	worldSeq int
 )
+
+type lateInfo struct{ at, inc int } // controller height at that moment, incarnation
 
 func newWorld(full bool, res *vh.Result, beh string) *world {
 	if sharedDB == nil {
@@ -270,7 +276,7 @@ func newWorld(full bool, res *vh.Result, beh string) *world {
 	worldSeq++
 	w := &world{full: full, db: sharedDB, prefix: fmt.Sprintf("w%d-%s", worldSeq, spectypes.BNRoleAttester.String()),
 		res: res, beh: beh, incMax: -1, loadMax: -1, everDec: -1,
-		startedInc: map[int]bool{}, histInc: map[int]bool{}}
+		startedInc: map[int]bool{}, histInc: map[int]bool{}, late: map[int]lateInfo{}}
 	w.p = w.boot(false)
 	return w
 }
@@ -555,6 +561,11 @@ func (w *world) deliver(data []byte, call string) error {
 }
 
 func (w *world) decided(h, r, n int) error {
+	if hb := int(w.p.ctrl.Height); h < hb {
+		if _, ok := w.late[h]; !ok {
+			w.late[h] = lateInfo{at: hb, inc: w.restarts}
+		}
+	}
 	err := w.deliver(msgsFor(h).cert[[2]int{r, n}], "decided message")
 	w.learned(h) // a valid quorum certificate for h has reached the runner
 	return err
